@@ -25,7 +25,7 @@ def replay(path):
     if isinstance(rp, dict) and rp.get("harness") == "c07_mtdec":
         exe = mtsched.build("c07_mtdec", "harness/c07_mtdec.c", "sched")
         row = rp["row"].split(":")[0]
-        r = subprocess.run(["taskset", "-c", "0", exe, "replay", row, rp.get("schedule", "").replace("(default)", ""), str(rp.get("early", 0)), str(rp.get("reinit", 0))],
+        r = subprocess.run(["taskset", "-c", "0", exe, "replay", row, rp.get("schedule", "").replace("(default)", ""), str(rp.get("early", 0)), str(rp.get("reinit", 0)), str(rp.get("trunc", 0))],
                            env={**os.environ, **vlib.SAN_ENV})
         return 1 if r.returncode else 0
     print(json.dumps(d, indent=1)[:3000]); return 1
